@@ -1,7 +1,9 @@
 package main
 
 import (
+	"fmt"
 	"go/token"
+	"strings"
 
 	"golang.org/x/tools/go/ssa"
 )
@@ -104,6 +106,7 @@ func checkC15(c *Ctx) {
 		found, ok, _ := loopBodyMustPass(tsc, func(in ssa.Instruction) bool { cc := callCommon(in); return cc != nil && predStatic(esc0)(cc) })
 		c.decide("PASS-extract-every-version", "traverseStateChanges diffs every version", l.pos(tsc.Pos()), found && ok, "every iteration of the version loop calls extractStateChanges", "the version loop can deliver a change set without diffing the two roots (e.g. a shortcut for reference roots): removals that collapse the root are lost")
 	}
+	checkDiffMergeTable(c)
 	ea := newErrAnalysis(c, l)
 	esc := l.Func("", "*nodeDB.extractStateChanges")
 	ea.runE3("ERR-E3-iterator", func(fn *ssa.Function) bool {
@@ -114,4 +117,87 @@ func checkC15(c *Ctx) {
 		}
 		return false
 	})
+}
+
+// checkDiffMergeTable: the merge of "leaf orphaned in v-1" against "new leaves
+// of v" (keys are touched only through one comparison) is walked for every
+// ordering and for an empty / non-empty list of pending new leaves.
+//   orphaned > new  : emit the new leaf as a write, consume it, look at the next new leaf
+//   orphaned < new  : emit a deletion of the orphaned key, keep the new leaf
+//   orphaned == new : emit the new leaf as a write (update), consume it
+//   no new leaves   : emit a deletion
+func checkDiffMergeTable(c *Ctx) {
+	l := c.L
+	c.rule("TABLE-diff-merge", "change-set merge of orphaned leaves against new leaves, over all orderings", 6)
+	esc := l.Func("", "*nodeDB.extractStateChanges")
+	if esc == nil {
+		c.anchorMissing("TABLE-diff-merge", "extractStateChanges")
+		return
+	}
+	var merge *ssa.Function
+	for _, af := range esc.AnonFuncs {
+		if len(af.Params) == 1 && len(callsIn(af, predFuncString("bytes.Compare"))) > 0 {
+			merge = af
+		}
+	}
+	if merge == nil {
+		c.anchorMissing("TABLE-diff-merge", "orphaned-leaf merge closure")
+		return
+	}
+	write := "receiver({Key=free0[i].key Value=free0[i].value})"
+	del := "receiver({Delete=true Key=arg0.key})"
+	for _, nonEmpty := range []bool{true, false} {
+		for _, ord := range []int{-1, 0, 1} {
+			ord, nonEmpty := ord, nonEmpty
+			env := &tableEnv{l: l, flag: map[string]int{}, cmp: func(a, b string) (int, bool) {
+				if a == "arg0.key" {
+					return ord, true
+				}
+				if b == "arg0.key" {
+					return -ord, true
+				}
+				return 0, false
+			}}
+			env.ints = func(v ssa.Value, role string) (int64, bool) {
+				if strings.HasPrefix(role, "len(") {
+					if nonEmpty {
+						return 1, true
+					}
+					return 0, true
+				}
+				return 0, false
+			}
+			run := runTableS(merge, env, func(call *ssa.Call) string {
+				if staticCallee(&call.Call) == nil {
+					if _, isB := call.Call.Value.(*ssa.Builtin); isB {
+						return ""
+					}
+					return "receiver(" + literalRoles(l, call.Call.Args[0], "") + ")"
+				}
+				return ""
+			}, func(st *ssa.Store) string {
+				if _, ok := st.Addr.(*ssa.FreeVar); ok {
+					if _, isSl := stripTrivial(st.Val).(*ssa.Slice); isSl {
+						return "consume"
+					}
+				}
+				return ""
+			})
+			got := strings.Join(run.events, " ; ")
+			if run.ret != nil {
+				got += " ; return"
+			}
+			var ws string
+			switch {
+			case !nonEmpty, ord < 0:
+				ws = del + " ; return"
+			case ord == 0:
+				ws = "consume ; " + write + " ; return"
+			default:
+				ws = "consume ; " + write + " ; <loop>"
+			}
+			name := map[int]string{-1: "orphaned < new", 0: "orphaned == new", 1: "orphaned > new"}[ord]
+			c.decide("TABLE-diff-merge", fmt.Sprintf("merge: %s, pending new leaves=%v", name, nonEmpty), l.pos(merge.Pos()), got == ws, got, "does `"+got+"`, the rule is `"+ws+"`")
+		}
+	}
 }
